@@ -30,3 +30,6 @@ Print Assumptions C03_parent_ids_roundtrip.
 
 Example C03_example : dec_opt N (enc_opt N (Some 0)) = Some 0 /\ dec_opt N (enc_opt_legacy N (N.eqb 0) (Some 0)) = None.
 Proof. split; reflexivity. Qed.
+
+(* grouping by resource / scope identifier: see C01_identifiers_injective (Otlp/Ids.v); the same identifiers are used for
+   this signal and are compared character for character with the real ones on every run (id_mismatch) *)
